@@ -1376,6 +1376,8 @@ impl StoryState {
             }
 
             let j_choice_threads_obj = j_object.get("choiceThreads");
+            self.current_flow
+                .restore_invisible_default_choices(&self.main_content_container);
             self.current_flow.load_flow_choice_threads(
                 j_choice_threads_obj,
                 self.main_content_container.clone(),
